@@ -15,9 +15,9 @@ EXTENDS Integers, Sequences, FiniteSets, TLC, SequencesExt, Json
 
 \* ---- the register ----------------------------------------------------------
 VARIABLES stored, case
-Classes == {"plain", "space", "dot", "squote", "dquote", "backslash", "control", "newline", "unicode", "nonbmp", "hash", "equals", "bracket"}
-PathForms == {"plain", "nested", "v2", "v10", "host", "atword", "atodd"}
-Cases == [name : Classes \cup {"empty"}, ignore : SUBSET {"plain", "dquote", "newline"}, nreq : 0..2,
+Classes == {"plain", "space", "dot", "squote", "dquote", "backslash", "control", "newline", "unicode", "nonbmp", "hash", "equals", "bracket", "percent"}
+PathForms == {"plain", "nested", "v2", "v10", "host", "atword", "atodd", "percent"}
+Cases == [name : Classes \cup {"empty"}, ignore : SUBSET {"plain", "dquote", "newline", "pathlike"}, nreq : 0..2,
           key : Classes \cup {"empty"}, key2 : {"plain", "dquote", "unicode"}, path : PathForms]
 
 Init == stored = [set |-> FALSE] /\ case \in Cases
